@@ -19,7 +19,7 @@ import (
 	"github.com/nspcc-dev/neofs-node/pkg/local_object_storage/shard/mode"
 	"github.com/nspcc-dev/neofs-node/pkg/local_object_storage/writecache"
 	apistatus "github.com/nspcc-dev/neofs-sdk-go/client/status"
-	"go.etcd.io/bbolt"
+	"github.com/nspcc-dev/bbolt"
 	"github.com/nspcc-dev/neofs-sdk-go/object"
 	oid "github.com/nspcc-dev/neofs-sdk-go/object/id"
 )
@@ -38,7 +38,7 @@ type slowStor struct {
 	sh       atomic.Pointer[shard.Shard]
 	puts     atomic.Int64
 	failed   atomic.Int64
-	orderBad atomic.Int64 // cache file present when storage.Put started but gone when it returned
+	orderBad atomic.Int64 // cache file gone during a flusher's storage.Put while the blob storage does not have the object
 }
 
 func (s *slowStor) pause() {
@@ -89,19 +89,28 @@ func (s *slowStor) goneNow(a oid.Address) bool {
 	return known && !has
 }
 
+// check samples the core invariant at the flusher: the object was cached when the flush of it started;
+// if the cache file is gone now (another flusher finished), the blob storage must have the object.
+func (s *slowStor) check(a oid.Address, before bool) {
+	if before && s.goneNow(a) {
+		if ok, err := s.Storage.Exists(a); err == nil && !ok {
+			s.orderBad.Add(1)
+		}
+	}
+}
+
 func (s *slowStor) Put(a oid.Address, d []byte) error {
 	s.puts.Add(1)
 	before := s.cached(a)
 	s.pause()
 	if s.fail() {
 		s.failed.Add(1)
+		s.check(a, before)
 		return errInjected
 	}
 	err := s.Storage.Put(a, d)
 	s.pause() // object is in both places now: readers race with the flusher's cache delete
-	if before && s.goneNow(a) {
-		s.orderBad.Add(1)
-	}
+	s.check(a, before)
 	return err
 }
 
@@ -114,14 +123,15 @@ func (s *slowStor) PutBatch(m map[oid.Address][]byte) error {
 	s.pause()
 	if s.fail() {
 		s.failed.Add(1)
+		for a := range m {
+			s.check(a, before[a])
+		}
 		return errInjected
 	}
 	err := s.Storage.PutBatch(m)
 	s.pause()
 	for a := range m {
-		if before[a] && s.goneNow(a) {
-			s.orderBad.Add(1)
-		}
+		s.check(a, before[a])
 	}
 	return err
 }
@@ -147,6 +157,7 @@ type c16Case struct {
 	Workers  int       `json:"workers"`
 	Reopen   bool      `json:"reopen"`
 	Modes    bool      `json:"modes"`
+	Explicit bool      `json:"explicit"` // explicit FlushWriteCache calls (otherwise only the background flusher runs: batches)
 	DurMs    int       `json:"dur_ms"`
 	Reads    int64     `json:"reads"`
 	ReadsOK  int64     `json:"reads_ok"`
@@ -314,7 +325,7 @@ func runC16(cs *c16Case, seed uint64) {
 	go func() {
 		defer wg.Done()
 		fr := &rng{s: r.next()}
-		for !stop.Load() {
+		for !stop.Load() && cs.Explicit {
 			time.Sleep(time.Duration(5+fr.intn(40)) * time.Millisecond)
 			gate.RLock()
 			_ = sh.FlushWriteCache(fr.chance(1, 2))
@@ -398,7 +409,7 @@ func runC16(cs *c16Case, seed uint64) {
 
 func c16Main(args []string) {
 	seed := envU64("VERIF_SEED", 1)
-	n, par, dur := 48, 16, 1500
+	n, par, dur := 48, 16, 2200
 	if os.Getenv("VERIF_TIER") == "thorough" {
 		n, par, dur = 320, 16, 2500
 	}
@@ -409,7 +420,7 @@ func c16Main(args []string) {
 	cases := make([]*c16Case, n)
 	for i := range cases {
 		cases[i] = &c16Case{ID: i, Objects: 3 + r.intn(6), FailPct: []int{0, 0, 20, 50}[r.intn(4)], Workers: 1 + r.intn(3),
-			Reopen: r.chance(1, 3), Modes: r.chance(1, 2), DurMs: dur}
+			Reopen: r.chance(1, 3), Modes: r.chance(1, 2), Explicit: r.chance(1, 2), DurMs: dur}
 	}
 	var wg sync.WaitGroup
 	sem := make(chan struct{}, par)
